@@ -51,11 +51,25 @@ def one(rng, crop, soil, method, i):
     if not thermal and not c["kw"].get("SwitchGDD") and (gen.chance(rng, 0.04) or (i % 6 == 0 and float(cat[crop].get("dHI_pre", 0) or 0) > 0)):
         # a place where the crop cannot grow at all: the run still has to finish with finite numbers
         w = {"kind": "synth", "seed": int(rng.integers(0, 2 ** 31 - 1)), "regime": "polar"}
+    if not thermal and i % 25 == 7 and crop in ("Wheat", "Barley", "Potato", "SugarBeet", "Quinoa", "Tef", "DryBean", "Default"):
+        # a bundled file exactly as prepare_weather() returns it, with a winter inside the season
+        # (the Brussels record has days without any evaporative demand)
+        w = {"kind": "file", "name": "brussels_climate.txt"}
+        c["planting"] = f"{int(rng.integers(10, 12)):02d}/{int(rng.integers(1, 29)):02d}"
+        c["harvest"] = None
     span = gen.W.file_span(w["name"]) if w["kind"] == "file" else None
     shape = gen.pick(rng, ["after", "after", "mid", "anniv", "long", "feb29"])
     start, end, p0 = gen.window(rng, c, seasons=(1, 3), pre=(0, 0, 5, 40, 200), end_shape=shape, file_span=span)
     edge = None
-    r = rng.random()
+    brussels_winter = w.get("name") == "brussels_climate.txt" and not thermal and i % 25 == 7
+    if brussels_winter:
+        # Decembers of 1997-2002 contain the days without evaporative demand
+        y = int(rng.integers(1997, 2002))
+        pm, pd_ = [int(x) for x in c["planting"].split("/")]
+        p0 = dt.date(y, pm, pd_)
+        start = p0 - dt.timedelta(days=int(gen.pick(rng, [0, 10])))
+        end = p0 + dt.timedelta(days=gen.crop_len_days(crop) + 60 + 365 * int(rng.integers(0, 2)))
+    r = rng.random() if not brussels_winter else 0.99
     if r < 0.05 and span is None:
         # leap day as the start date
         y = start.year
